@@ -17,6 +17,10 @@
 //! ChannelManager written right after it released the intercepted HTLC and before the HTLC went out:
 //! the downstream channel is closed as stale, the HTLC lives on in its monitor, and D4 (late on-chain
 //! claim by node 2) and D5 (silent downstream) are judged as before.
+//! A seventh kind looks at the payer: node 0 pays node 1 directly, node 1 falls silent, the HTLC times
+//! out on chain; node 0's event handler refuses the PaymentFailed event once (asking for a replay) and
+//! node 0 restarts from a manager written before the channel closed:
+//!   P9  (C03) the payer is still told PaymentFailed: a terminal event is delivered until it is handled
 use crate::run::Sim;
 use crate::sim::{Obs, SendOpts};
 use crate::wire::Wire;
@@ -94,7 +98,7 @@ fn turn(sim: &mut Sim, forward_at_1: bool) {
 	}
 }
 
-pub fn phase(sim: &mut Sim, rng: &mut Rng, rep: &mut Report) -> Result<(), String> {
+pub fn phase(sim: &mut Sim, rng: &mut Rng, rep: &mut Report, only_kind: Option<u64>) -> Result<(), String> {
 	let tc = lightning::ln::verif_api::timing_constants();
 	let (c01, c12) = match (sim.w.chan_between(0, 1).first().cloned(), sim.w.chan_between(1, 2).first().cloned()) {
 		(Some(a), Some(b)) => (a, b),
@@ -117,7 +121,14 @@ pub fn phase(sim: &mut Sim, rng: &mut Rng, rep: &mut Report) -> Result<(), Strin
 		return Ok(());
 	}
 	let amt = 1_500_000 + rng.below(cap - 1_500_000);
-	let kind = rng.below(6);
+	// (the payer's restart – kind 6 – is C03's matter and runs as a stage of that check)
+	let kind = only_kind.unwrap_or_else(|| rng.below(6));
+	if kind == 6 {
+		let amt = 1_000_000 + rng.below((hi / 3).max(1));
+		let final_cltv = tc.min_final_cltv_expiry_delta as u32 + *rng.pick(&[0u32, 5, 30]);
+		let third = rng.chance(1, 3);
+		return sender_restart(sim, rep, c01, amt, final_cltv, tc.anti_reorg_delay, third);
+	}
 	let (dead_downstream, onchain_claim, stale_forwarder) = (kind == 0 || kind == 5, kind == 2 || kind == 4, kind >= 4);
 	let final_cltv = tc.min_final_cltv_expiry_delta as u32 + *rng.pick(&[0u32, 1, 5, 30]);
 	sim.w.step += 1;
@@ -363,6 +374,114 @@ pub fn phase(sim: &mut Sim, rng: &mut Rng, rep: &mut Report) -> Result<(), Strin
 			}
 		},
 		_ => {},
+	}
+	Ok(())
+}
+
+/// D6: the payer's terminal event survives a refusing handler followed by a restart from an older manager.
+fn sender_restart(sim: &mut Sim, rep: &mut Report, c01: usize, amt: u64, final_cltv: u32, anti_reorg: u32, rng_third: bool) -> Result<(), String> {
+	sim.w.step += 1;
+	sim.w.note(format!("DEADLINE scenario kind 6 (payer restarts) amt {} final cltv delta {}", amt, final_cltv));
+	let pi = match sim.w.send_payment_ex(0, &[(vec![c01], amt)], final_cltv, SendOpts { class: "deadline-direct", ..Default::default() }, None) {
+		Ok(p) => p,
+		Err(_) => {
+			sim.dispatch(rep);
+			return Ok(());
+		},
+	};
+	let hash = sim.w.payments[pi].hash.0;
+	turn(sim, true);
+	sim.dispatch(rep);
+	let cltv = match sim.w.chans[c01].model.as_ref().and_then(|m| m.pending_htlcs().iter().find(|h| h.3 == hash).map(|h| h.4)) {
+		Some(c) => c,
+		None => {
+			rep.count("c08_scenarios_htlc_not_committed");
+			return Ok(());
+		},
+	};
+	// the recipient never claims and never speaks again
+	sim.w.claimable.retain(|c| c.hash.0 != hash);
+	sim.w.note("DEADLINE the recipient goes silent for good; the payer writes its manager".to_string());
+	sim.w.chans[c01].fault = Some("recipient dead".into());
+	sim.w.disconnect(0, 1);
+	for n in 0..sim.w.nodes.len() {
+		sim.w.complete_all(n);
+	}
+	// the manager is written before every block: the restart uses the last one written before the handler
+	// refused (or, in a third of the runs, the one written when the recipient fell silent)
+	sim.w.snapshot(0);
+	let old_manager = rng_third;
+	let (mut refused, mut restarted, mut failed_after, mut sent) = (false, false, false, false);
+	let mut failed_before = false;
+	let end = cltv + 3 * anti_reorg + 30;
+	while sim.w.chain.height() < end {
+		// (written before the block is connected: the manager has not yet heard from its monitor what the block
+		// makes final)
+		if !refused && !old_manager {
+			sim.w.snapshot(0);
+		}
+		sim.w.mine(1);
+		for n in 0..sim.w.nodes.len() {
+			sim.w.nodes[n].mon.rebroadcast_pending_claims();
+			sim.w.complete_all(n);
+		}
+		if !refused {
+			refused = sim.w.process_events_refusing(0, &|e: &Event| matches!(e, Event::PaymentFailed { payment_hash: Some(h), .. } if h.0 == hash));
+		} else {
+			sim.w.process_events(0);
+		}
+		for n in 1..sim.w.nodes.len() {
+			sim.w.process_events(n);
+		}
+		for o in sim.w.obs.iter() {
+			match o {
+				Obs::Event { node: 0, ev: Event::PaymentFailed { payment_hash: Some(ph), .. }, .. } if ph.0 == hash => {
+					if restarted {
+						failed_after = true;
+					} else {
+						failed_before = true;
+					}
+				},
+				Obs::Event { node: 0, ev: Event::PaymentSent { payment_hash, .. }, .. } if payment_hash.0 == hash => sent = true,
+				_ => {},
+			}
+		}
+		sim.dispatch(rep);
+		if !sim.raised.is_empty() {
+			return Ok(());
+		}
+		if refused && !restarted {
+			for n in 0..sim.w.nodes.len() {
+				sim.w.complete_all(n);
+			}
+			sim.w.step += 1;
+			sim.w.note("DEADLINE the payer's handler refused PaymentFailed; the payer restarts from the manager written before the close".to_string());
+			let snap = sim.w.nodes[0].snapshots.len() - 1;
+			if let Err(e) = sim.w.restart(0, Some(snap), &[]) {
+				sim.raised.push(("C10".into(), "S1-reload".into(), format!("reload from persisted state failed: {}", vcore::canon(&e)), format!("node0 in a deadline scenario: {}", e)));
+				return Ok(());
+			}
+			restarted = true;
+			rep.count("c03_p9_payer_restarts_after_refusal");
+		}
+		if failed_after {
+			break;
+		}
+	}
+	rep.count("c03_p9_payer_restart_scenarios");
+	let detail = format!("expiry {} refused {} restarted {} failed_before {} failed_after {} sent {} height {}", cltv, refused, restarted, failed_before, failed_after, sent, sim.w.chain.height());
+	if !refused {
+		rep.count("c03_p9_payment_failed_never_offered_to_the_handler");
+		if !failed_before {
+			sim.raised.push(("C03".into(), "P9-terminal-event-survives-restart".into(), "the payer was never offered PaymentFailed although its HTLC timed out on chain long ago".into(), detail));
+		}
+		return Ok(());
+	}
+	rep.count("c03_p9_refused_events_judged");
+	if sent {
+		sim.raised.push(("C03".into(), "P1-truthful-sent".into(), "the payer saw PaymentSent although the recipient never claimed".into(), detail));
+	} else if !failed_after {
+		sim.raised.push(("C03".into(), "P9-terminal-event-survives-restart".into(), "PaymentFailed, refused once by the event handler, was never delivered again after a restart from an older ChannelManager: the payment has no HTLC left and no terminal event".into(), detail));
 	}
 	Ok(())
 }
